@@ -929,6 +929,11 @@ class AccessoryDriver:
                     # stored (validated), like the characteristic callback
                     value = char.to_valid_value(value)
 
+            if set_result == HAP_SERVER_STATUS.SUCCESS:
+                # An event queued for the writer before its own write is
+                # obsolete now and must not reach it after the write
+                self.http_server.discard_stale_event(aid, iid, char.value, client_addr)
+
             if set_result_value is not None and write_response_requested:
                 result = {HAP_REPR_STATUS: set_result, HAP_REPR_VALUE: set_result_value}
             else:
